@@ -110,8 +110,22 @@ class Interp:
         pts = [self.pt(p) for p in op["corners"]]
         loft = cb.Loft(cb.Face(pts[:4]), cb.Face(pts[4:]))
         for e in op.get("edges", []):
-            self.set_edge(loft, e["c1"], e["c2"], self.edge_data(e))
+            if e["kind"] == "arc" and e.get("as") == "oncurve":
+                # the same circular arc, declared as an edge snapped to a parametric circle
+                data = self.oncurve_from_arc(pts[e["c1"]], pts[e["c2"]], self.pt(e["data"]))
+            else:
+                data = self.edge_data(e)
+            self.set_edge(loft, e["c1"], e["c2"], data)
         self.env[op["name"]] = loft
+
+    def oncurve_from_arc(self, p, q, m):
+        cb = self.cb
+        a, b, c = (np.array(x, dtype=float) for x in (p, m, q))
+        ab, ac = b - a, c - a
+        n = np.cross(ab, ac)
+        nn = float(np.dot(n, n))
+        centre = a + (float(np.dot(ac, ac)) * np.cross(n, ab) + float(np.dot(ab, ab)) * np.cross(ac, n)) / (2 * nn)
+        return cb.OnCurve(cb.CircleCurve(centre, a, n))
 
     def op_box(self, op) -> None:
         self.env[op["name"]] = self.cb.Box(op["p1"], op["p2"])
